@@ -7,6 +7,7 @@ import (
 	"testing"
 
 	mxj "github.com/clbanning/mxj/v2"
+	"pgregory.net/rapid"
 )
 
 func fuzzFail(t *testing.T, prop string, f *Failure, c interface{}) {
@@ -61,3 +62,27 @@ func FuzzArgs(f *testing.F) {
 		fuzzFail(t, "C15", safely(checkC15inner, c, &Info{}), c)
 	})
 }
+
+// ---- coverage-guided exploration of the structured generators (rapid.MakeFuzz): the fuzzer's bytes
+// drive the same generators as the property tests, the oracle is the same check function.
+
+func rapidFuzz[C any](prop string, gen func(*rapid.T) C, check func(C, *Info) *Failure) func(*testing.T, []byte) {
+	return rapid.MakeFuzz(func(rt *rapid.T) {
+		c := gen(rt)
+		noise()
+		f := safely(check, c, &Info{})
+		if f == nil {
+			return
+		}
+		if id := matchKnown(prop, f, c); id != "" {
+			return
+		}
+		rt.Fatalf("%s %s: %s\ncase: %s", prop, f.Kind, f.Msg, mustJSON(c))
+	})
+}
+
+func FuzzGenC01(f *testing.F) { f.Fuzz(rapidFuzz("C01", genC01, checkC01)) }
+func FuzzGenC04(f *testing.F) { f.Fuzz(rapidFuzz("C04", genC04, checkC04)) }
+func FuzzGenC07(f *testing.F) { f.Fuzz(rapidFuzz("C07", genC07, checkC07)) }
+func FuzzGenC10(f *testing.F) { f.Fuzz(rapidFuzz("C10", genC10, checkC10)) }
+func FuzzGenC13(f *testing.F) { f.Fuzz(rapidFuzz("C13", genC13, checkC13)) }
